@@ -36,25 +36,25 @@ type convAll interface {
 
 // exact value of a source
 type c02Src struct {
-	typ   string
-	v     any
-	isInt bool // integer-valued source with sign+magnitude
-	neg   bool
-	mag   uint64
-	f     float64 // for float sources (float32 widened exactly)
-	isF   bool
-	rat   *big.Rat // for string sources
-	str   string
+	typ                   string
+	v                     any
+	isInt                 bool // integer-valued source with sign+magnitude
+	neg                   bool
+	mag                   uint64
+	f                     float64 // for float sources (float32 widened exactly)
+	isF                   bool
+	rat                   *big.Rat // for string sources
+	str                   string
 	canonInt, floatSyntax bool
 }
 
 type c02IntTarget struct {
-	name     string
-	lo       int64  // real minimum (<= 0)
-	hi       uint64 // real maximum
-	plo      int64  // portable must-succeed minimum
-	phi      uint64 // portable must-succeed maximum
-	call     func(convAll) (neg bool, mag uint64, err error)
+	name string
+	lo   int64  // real minimum (<= 0)
+	hi   uint64 // real maximum
+	plo  int64  // portable must-succeed minimum
+	phi  uint64 // portable must-succeed maximum
+	call func(convAll) (neg bool, mag uint64, err error)
 }
 
 func sm(v int64) (bool, uint64) {
@@ -406,9 +406,9 @@ func c02IntCandidates() []smv {
 }
 
 var (
-	canonIntRe   = regexp.MustCompile(`^(0|-?[1-9][0-9]*)$`)
-	floatSynRe   = regexp.MustCompile(`^[+-]?[0-9]+(\.[0-9]+)?([eE][+-]?[0-9]+)?$`)
-	ratParsable  = regexp.MustCompile(`^[+-]?[0-9]+(\.[0-9]+)?([eE][+-]?[0-9]{1,4})?$`)
+	canonIntRe  = regexp.MustCompile(`^(0|-?[1-9][0-9]*)$`)
+	floatSynRe  = regexp.MustCompile(`^[+-]?[0-9]+(\.[0-9]+)?([eE][+-]?[0-9]+)?$`)
+	ratParsable = regexp.MustCompile(`^[+-]?[0-9]+(\.[0-9]+)?([eE][+-]?[0-9]{1,4})?$`)
 )
 
 func c02StringSrc(s string) *c02Src {
